@@ -7,6 +7,7 @@ package server
 import (
 	"context"
 	"fmt"
+	"google.golang.org/protobuf/types/known/timestamppb"
 	"strings"
 	"testing"
 
@@ -139,14 +140,24 @@ func vGenAR(rng *vRand, pBad int, allowNil bool) (*pb.ActionResult, string) {
 	if rng.Bool() {
 		ar.StderrDigest = dg()
 	}
-	if rng.Pct(30) {
+	switch rng.Intn(10) {
+	case 0, 1, 2:
 		ar.ExecutionMetadata = &pb.ExecutedActionMetadata{Worker: "w1"}
+	case 3, 4:
+		// metadata without a worker name: the server fills the name in and must keep the rest
+		ar.ExecutionMetadata = &pb.ExecutedActionMetadata{
+			QueuedTimestamp:         &timestamppb.Timestamp{Seconds: int64(1700000000 + rng.Intn(1000))},
+			ExecutionStartTimestamp: &timestamppb.Timestamp{Seconds: int64(1700001000 + rng.Intn(1000)), Nanos: int32(rng.Intn(1000))},
+		}
+	case 5:
+		ar.ExecutionMetadata = &pb.ExecutedActionMetadata{Worker: "w2", WorkerCompletedTimestamp: &timestamppb.Timestamp{Seconds: 1700002000}}
 	}
 	if !rng.Pct(pBad) {
 		return ar, "valid"
 	}
 	badHashes := []string{"", "abc", strings.ToUpper(vGoodHash), vGoodHash + "0", "xy" + vGoodHash[2:], vGoodHash[:63]}
-	kinds := []string{"emptyPath", "absPath", "nilDigest", "negSize", "badHash", "absDir", "nilTree", "badTree", "symEmptyPath", "symEmptyTarget", "symAbs", "stdoutBad", "stderrNeg"}
+	kinds := []string{"emptyPath", "absPath", "nilDigest", "negSize", "badHash", "absDir", "nilTree", "badTree", "symEmptyPath", "symEmptyTarget", "symAbs", "stdoutBad", "stderrNeg",
+		"emptyDigest", "emptyTree", "stdoutEmptyDigest", "stderrEmptyDigest"}
 	if allowNil {
 		kinds = append(kinds, "nilFile", "nilDir", "nilSym")
 	}
@@ -198,6 +209,14 @@ func vGenAR(rng *vRand, pBad int, allowNil bool) (*pb.ActionResult, string) {
 		ar.StdoutDigest = &pb.Digest{Hash: badHashes[rng.Intn(len(badHashes))], SizeBytes: 3}
 	case "stderrNeg":
 		ar.StderrDigest = &pb.Digest{Hash: vGoodHash, SizeBytes: -7}
+	case "emptyDigest": // a Digest message that is present but empty is not an absent one
+		ensureFile().Digest = &pb.Digest{}
+	case "emptyTree":
+		ensureDir().TreeDigest = &pb.Digest{}
+	case "stdoutEmptyDigest":
+		ar.StdoutDigest = &pb.Digest{}
+	case "stderrEmptyDigest":
+		ar.StderrDigest = &pb.Digest{}
 	case "nilFile":
 		ar.OutputFiles = append(ar.OutputFiles, nil)
 	case "nilDir":
